@@ -738,4 +738,188 @@ theorem dotChars_injective (d1 d2 : List Node) (h1 : ∀ n ∈ d1, SafeNode n) (
   rw [he, b] at a
   exact (Option.some.inj a).symm
 
+
+/-! ## `inspect`: the text determines the lines -/
+
+theorem splitLines_tail (tail cur : List Char) (h : ∀ c ∈ tail, c ≠ '\n') :
+    splitLines tail cur = ([], cur.reverse ++ tail) := by
+  induction tail generalizing cur with
+  | nil => simp [splitLines]
+  | cons c cs ih =>
+    have hc : c ≠ '\n' := h c (List.mem_cons_self ..)
+    simp only [splitLines, if_neg hc]
+    rw [ih (c :: cur) (fun y hy => h y (List.mem_cons_of_mem _ hy))]
+    simp
+
+theorem splitLines_unlines_tail (ls : List (List Char)) (tail : List Char) (h : ∀ l ∈ ls, ∀ c ∈ l, c ≠ '\n')
+    (ht : ∀ c ∈ tail, c ≠ '\n') : splitLines (unlines ls ++ tail) [] = (ls, tail) := by
+  induction ls with
+  | nil => simpa [unlines] using splitLines_tail tail [] ht
+  | cons l ls ih =>
+    have : unlines (l :: ls) ++ tail = l ++ '\n' :: (unlines ls ++ tail) := by simp [unlines]
+    rw [this, splitLines_line l _ [] (h l (List.mem_cons_self ..)), ih (fun x hx => h x (List.mem_cons_of_mem _ hx))]
+    simp
+
+theorem readNat_nat10_end (n : Nat) : readNat (nat10 n) = some (n, []) := by
+  have h := takeWhile_all isDig (nat10 n) (nat10_digits n)
+  unfold readNat
+  simp only [h.1, h.2]
+  have hne : (nat10 n).isEmpty = false := by
+    have := @Nat.toDigits_ne_nil n 10
+    cases hd : nat10 n with
+    | nil => exact absurd hd this
+    | cons _ _ => rfl
+  rw [hne]
+  simp [nat10, Nat.ofDigitChars_ten_toDigits]
+
+/-- a label whose text has no blank either (every canonical label; taken as a hypothesis here) -/
+structure PlainLabel (a : Label) : Prop where
+  safe : SafeLabel a
+  noSpace : ∀ c ∈ Lb.print a, c ≠ ' '
+
+/-- one edge line: indentation, `.LABEL ➞ νT`, `…` if the target was listed before -/
+def readILine (l : List Char) : Option Line :=
+  let sp := (l.takeWhile (· == ' ')).length
+  if sp < 2 ∨ sp % 2 = 1 then none
+  else
+    match l.dropWhile (· == ' ') with
+    | '.' :: r1 =>
+      match stripPrefix iArrow (r1.dropWhile (· != ' ')), Lb.parse (r1.takeWhile (· != ' ')) with
+      | some r2, some a =>
+        match readNat r2 with
+        | some (t, rest) =>
+          if rest = [] then some ⟨sp / 2 - 1, a, t, false⟩
+          else if rest = ['…'] then some ⟨sp / 2 - 1, a, t, true⟩
+          else none
+        | none => none
+      | _, _ => none
+    | _ => none
+
+theorem readILine_line (l : Line) (h : PlainLabel l.label) : readILine (lineChars l) = some l := by
+  obtain ⟨d, a, t, ell⟩ := l
+  unfold readILine lineChars
+  simp only [List.append_assoc]
+  have e0 : List.replicate (2 * d) ' ' ++ ([' ', ' ', '.'] ++ (Lb.print a ++ (iArrow ++ (nat10 t ++ if ell = true then ['…'] else [])))) =
+      List.replicate (2 * d + 2) ' ' ++ '.' :: (Lb.print a ++ (iArrow ++ (nat10 t ++ if ell = true then ['…'] else []))) := by
+    have : List.replicate (2 * d + 2) ' ' = List.replicate (2 * d) ' ' ++ List.replicate 2 ' ' :=
+      List.replicate_append_replicate.symm
+    rw [this]; simp [List.replicate]
+  rw [e0]
+  have hsp : ∀ c ∈ List.replicate (2 * d + 2) ' ', (c == ' ') = true := by
+    intro c hc; simp [List.eq_of_mem_replicate hc]
+  have hs := takeWhile_append_stop (· == ' ') (List.replicate (2 * d + 2) ' ') '.'
+    (Lb.print a ++ (iArrow ++ (nat10 t ++ if ell = true then ['…'] else []))) hsp (by decide)
+  simp only [hs.1, hs.2, List.length_replicate]
+  have c1 : ¬ (2 * d + 2 < 2 ∨ (2 * d + 2) % 2 = 1) := by omega
+  rw [if_neg c1]
+  have hq : ∀ c ∈ Lb.print a, (c != ' ') = true := fun c hc => by simpa using h.noSpace c hc
+  have a1 : iArrow ++ (nat10 t ++ if ell = true then ['…'] else []) = ' ' :: (['➞', ' ', 'ν'] ++ (nat10 t ++ if ell = true then ['…'] else [])) := rfl
+  have hl := takeWhile_append_stop (· != ' ') (Lb.print a) ' ' (['➞', ' ', 'ν'] ++ (nat10 t ++ if ell = true then ['…'] else [])) hq (by simp)
+  simp only [a1, hl.1, hl.2]
+  rw [← a1, stripPrefix_append, Lb.parse_print_label a h.safe.canon]
+  have dd : (2 * d + 2) / 2 - 1 = d := by omega
+  cases ell with
+  | false =>
+    simp only [Bool.false_eq_true, if_false, List.append_nil, readNat_nat10_end, if_true, dd]
+  | true =>
+    have k := readNat_nat10 t '…' [] (by decide)
+    simp only [if_true, k, dd]
+    simp
+
+def readILines : List (List Char) → Option (List Line)
+  | [] => some []
+  | l :: ls => match readILine l, readILines ls with
+    | some x, some xs => some (x :: xs)
+    | _, _ => none
+
+theorem readILines_lines (ls : List Line) (h : ∀ l ∈ ls, PlainLabel l.label) : readILines (ls.map lineChars) = some ls := by
+  induction ls with
+  | nil => rfl
+  | cons l ls ih =>
+    simp [readILines, readILine_line l (h l (List.mem_cons_self ..)), ih (fun x hx => h x (List.mem_cons_of_mem _ hx))]
+
+/-- the reader of the whole `inspect` text: the start vertex and the lines -/
+def readInspect (text : List Char) : Option (Nat × List Line) :=
+  match splitLines text [] with
+  | (('ν' :: ds) :: ls, last) =>
+    match readNat ds with
+    | some (v, []) => (readILines (ls ++ (if last.isEmpty then [] else [last]))).map (fun x => (v, x))
+    | _ => none
+  | _ => none
+
+theorem lineChars_noNl (l : Line) (h : PlainLabel l.label) : ∀ c ∈ lineChars l, c ≠ '\n' := by
+  intro c hc
+  unfold lineChars at hc
+  simp only [List.mem_append] at hc
+  rcases hc with ((((hc | hc) | hc) | hc) | hc) | hc
+  · rw [List.eq_of_mem_replicate hc]; decide
+  · have : ∀ c ∈ [' ', ' ', '.'], c ≠ '\n' := by decide
+    exact this c hc
+  · exact h.safe.noNl c hc
+  · have : ∀ c ∈ iArrow, c ≠ '\n' := by decide
+    exact this c hc
+  · exact nat10_noNl _ c hc
+  · split at hc
+    · have : ∀ c ∈ ['…'], c ≠ '\n' := by decide
+      exact this c hc
+    · cases hc
+
+theorem lineChars_ne_nil (l : Line) : lineChars l ≠ [] := by
+  unfold lineChars; simp
+
+/-- `joinNl` is `unlines` of all lines but the last, followed by the last -/
+theorem joinNl_snoc (ls : List (List Char)) (last : List Char) : joinNl (ls ++ [last]) = unlines ls ++ last := by
+  induction ls with
+  | nil => simp [joinNl, unlines]
+  | cons l ls ih =>
+    cases ls with
+    | nil => simp [joinNl, unlines]
+    | cons l' ls' =>
+      have : joinNl (l :: l' :: ls' ++ [last]) = l ++ '\n' :: joinNl ((l' :: ls') ++ [last]) := by simp [joinNl]
+      rw [this, ih]; simp [unlines]
+
+/-- **the text of `inspect` reads back as the start vertex and the lines** -/
+theorem readInspect_chars (v : Nat) (ls : List Line) (h : ∀ l ∈ ls, PlainLabel l.label) :
+    readInspect (inspectChars v ls) = some (v, ls) := by
+  unfold readInspect inspectChars
+  have hdr : ∀ c ∈ 'ν' :: nat10 v, c ≠ '\n' := by
+    intro c hc
+    rcases List.mem_cons.1 hc with rfl | hc
+    · decide
+    · exact nat10_noNl _ c hc
+  rcases List.eq_nil_or_concat ls with rfl | ⟨init, lastL, rfl⟩
+  · -- no line: the text is the header line
+    have e : 'ν' :: nat10 v ++ '\n' :: joinNl (([] : List Line).map lineChars) = unlines ['ν' :: nat10 v] ++ [] := by
+      simp [joinNl, unlines]
+    rw [e, splitLines_unlines_tail ['ν' :: nat10 v] [] (by simpa using hdr) (by simp)]
+    simp [readNat_nat10_end, readILines]
+  · simp only [List.concat_eq_append] at h ⊢
+    have hi : ∀ l ∈ init, PlainLabel l.label := fun l hl => h l (by simp [hl])
+    have hlast : PlainLabel lastL.label := h lastL (by simp)
+    have e : 'ν' :: nat10 v ++ '\n' :: joinNl ((init ++ [lastL]).map lineChars) =
+        unlines (('ν' :: nat10 v) :: init.map lineChars) ++ lineChars lastL := by
+      rw [List.map_append, List.map_singleton, joinNl_snoc]; simp [unlines]
+    rw [e, splitLines_unlines_tail _ _ (by
+      intro l hl c hc
+      rcases List.mem_cons.1 hl with rfl | hl
+      · exact hdr c hc
+      · obtain ⟨x, hx, rfl⟩ := List.mem_map.1 hl
+        exact lineChars_noNl x (hi x hx) c hc) (lineChars_noNl lastL hlast)]
+    have ne : (lineChars lastL).isEmpty = false := by
+      cases hx : lineChars lastL with
+      | nil => exact absurd hx (lineChars_ne_nil lastL)
+      | cons _ _ => rfl
+    simp only [readNat_nat10_end, ne, Bool.false_eq_true, if_false]
+    have := readILines_lines (init ++ [lastL]) h
+    rw [List.map_append, List.map_singleton] at this
+    simp [this]
+
+theorem inspectChars_injective (v1 v2 : Nat) (l1 l2 : List Line) (h1 : ∀ l ∈ l1, PlainLabel l.label)
+    (h2 : ∀ l ∈ l2, PlainLabel l.label) (he : inspectChars v1 l1 = inspectChars v2 l2) : v1 = v2 ∧ l1 = l2 := by
+  have a := readInspect_chars v1 l1 h1
+  have b := readInspect_chars v2 l2 h2
+  rw [he, b] at a
+  have := Option.some.inj a
+  exact ⟨(Prod.mk.inj this).1.symm, (Prod.mk.inj this).2.symm⟩
+
 end Rs
